@@ -95,6 +95,12 @@ MISSED_FIRST = {"C01_s1": "C01 (no threaded / chunked draws) -> strategy draws (
                 "C13_s1": "C13 (float values only) -> reductions draw int32 / uint8 / bool / int64 / float32 values",
                 "C13_s2": "C13 (no slice masks) -> reductions draw slice and (sorted) positional masks",
                 "C16_s1": "C16 (magnitude grid on floats only) -> integer values at 1e9 / 1e10 (this also exposed a genuine defect, fixed in 41680ab)",
+                "C12_s1": "C12 (fresh objects only; C13 caught it) -> reductions on chunked keys after an earlier .groups call on the same object",
+                "C14_s2": "C14 (small float values) -> int64 values at 2^53 in 2-3-key margins (sum / min / max decoded exactly)",
+                "C17_s1": "C17 (selections of value columns only) -> a list selection that names the key column again",
+                "C17_s2": "C17 (string / float keys) -> categorical keys with an unused category",
+                "C19_s1": "C19 (non-negative positions) -> positional masks with entries counted from the end",
+                "C19_s2": "C19 (head(v, 1) / head(v, 2, keep_input_index=True)) -> head / tail that take every row, keys already in group order",
                 "C16_s2": "C16 (sorted q lists; values compared without their labels) -> unsorted q lists, entry labelled (group, q_j) compared with np.quantile's j-th entry"}
 
 
